@@ -5,8 +5,10 @@ V = "/verif"
 def mutants():
     idx = {m["name"]: m for m in json.load(open(f"{V}/mutants/index.json"))}
     rows = []
+    last = {}
     for l in open(f"{V}/mutants/results.jsonl"):
-        r = json.loads(l)
+        r = json.loads(l); last[r["name"]] = r
+    for r in last.values():
         m = idx.get(r["name"], {})
         exp = " ".join(m.get("expect", [])) or "none"
         det = r.get("detected_by", "") or "–"
@@ -32,5 +34,19 @@ def seeded():
     print("| change | written against | what | needs, to manifest | caught by |")
     print("|--------|-----------------|------|--------------------|-----------|")
     print("\n".join(rows))
+def capture(fn):
+    import io, contextlib
+    b = io.StringIO()
+    with contextlib.redirect_stdout(b):
+        fn()
+    return b.getvalue()
 if sys.argv[1] == "mutants": mutants()
-else: seeded()
+elif sys.argv[1] == "seeded": seeded()
+elif sys.argv[1] == "update":
+    # rewrite the two tables of DESIGN.md between their markers
+    d = open(f"{V}/DESIGN.md").read()
+    for name, fn in (("MUTANTS", mutants), ("SEEDED", seeded)):
+        b, e = f"<!-- TABLE_{name}_BEGIN -->", f"<!-- TABLE_{name}_END -->"
+        i, j = d.index(b) + len(b), d.index(e)
+        d = d[:i] + "\n" + capture(fn) + d[j:]
+    open(f"{V}/DESIGN.md", "w").write(d)
